@@ -4,7 +4,7 @@ injective on the bounds that occur under one label set — and that injectivity 
 `floatToGoString` on the `repr` texts of the bounds, up to the CPython facts named below.
 -/
 import PromVerif.Lemmas.MultiprocessCompose
-import PromVerif.Props.C13
+import PromVerif.Props.C13Injective
 
 namespace PromVerif.Props.C08
 open PromVerif.Py PromVerif.Generated.Multiprocess
@@ -135,192 +135,26 @@ theorem bucketSeries_keys_nodup (vo : VOps V) (bo : BOps B) [DecidableEq B] (mn 
 /-! ### connection with C13: `floatToGoString` on the `repr` texts of bounds
 
 C13 is stated on `repr` TEXTS (Lean has no theory of doubles).  A bound `b` is rendered as
-`floatToGoString (repr b)`.  The shapes `repr` produces for histogram bounds are listed in `BoundRepr`. -/
-
-open PromVerif.Spec PromVerif.Model.Utils PromVerif.Props.C13 in
-/-- `repr` texts of bounds: plain with at most / more than six integer digits, exponent form, `inf`, negative finite -/
-inductive BoundRepr : Str → Prop
-  | small (I F : Str) (h : PlainRepr I F) (hs : I.length ≤ 6) : BoundRepr (I ++ '.' :: F)
-  | big (i0 : Char) (I' F : Str) (h : PlainRepr (i0 :: I') F) (hb : 6 ≤ I'.length) : BoundRepr (i0 :: I' ++ '.' :: F)
-  | exp (s : Str) (h : ExpRepr s) : BoundRepr s
-  | inf : BoundRepr ['i', 'n', 'f']
-  | neg (c : Char) (r : Str) (hc : isDigit c = true) : BoundRepr ('-' :: c :: r)
+`floatToGoString (repr b)`; cross-class injectivity of `floatToGoString` is `Props.C13Injective.go_injective_texts`. -/
 
 section C13
-open PromVerif.Spec PromVerif.Model.Utils PromVerif.Props.C13
-
-/-- the text starts with a decimal digit -/
-def DigitHead (l : Str) : Prop := ∃ c r, l = c :: r ∧ isDigit c = true
-
-theorem digitHead_ne_plus (l : Str) (h : DigitHead l) : l.head? ≠ some '+' ∧ l.head? ≠ some '-' := by
-  obtain ⟨c, r, rfl, hc⟩ := h
-  simp only [List.head?_cons, ne_eq, Option.some.injEq]
-  exact ⟨isDigit_ne hc (by decide), isDigit_ne hc (by decide)⟩
-
-theorem plain_head (I F : Str) (h : PlainRepr I F) : DigitHead (I ++ '.' :: F) := by
-  cases hI : I with
-  | nil => exact absurd hI h.ine
-  | cons c r =>
-    have := h.idig; rw [hI] at this; simp [allDigits] at this
-    exact ⟨c, r ++ '.' :: F, rfl, this.1⟩
-
-theorem plain_no_e (I F : Str) (h : PlainRepr I F) : 'e' ∉ I ++ '.' :: F := by
-  intro hm
-  rcases List.mem_append.mp hm with hm | hm
-  · exact not_mem_of_allDigits h.idig (by decide) hm
-  · rcases List.mem_cons.mp hm with e | hm
-    · revert e; decide
-    · exact not_mem_of_allDigits h.fdig (by decide) hm
-
-theorem exp_head (s : Str) (h : ExpRepr s) : DigitHead s := by
-  obtain ⟨d, F, ex, hd, _, _, hs⟩ := h.shape
-  rcases hs with hs | hs <;> exact ⟨d, _, hs, hd⟩
-
-theorem big_render_head (i0 : Char) (I' F : Str) (h : PlainRepr (i0 :: I') F) (hb : 6 ≤ I'.length) :
-    DigitHead (floatToGoString (i0 :: I' ++ '.' :: F)) := by
-  rw [go_big i0 I' F h hb]
-  have hi0 : isDigit i0 = true := by have := h.idig; simp [allDigits] at this; exact this.1
-  unfold goFormat
-  simp only
-  split
-  · exact ⟨i0, _, rfl, hi0⟩
-  · exact ⟨i0, _, rfl, hi0⟩
-
-/-- how the rendering of a bound's `repr` looks, per shape -/
-theorem render_shape (s : Str) (h : BoundRepr s) :
-    (DigitHead (floatToGoString s)) ∨ floatToGoString s = ['+', 'I', 'n', 'f'] ∨
-    (∃ c r, isDigit c = true ∧ s = '-' :: c :: r ∧ floatToGoString s = s) := by
-  cases h with
-  | small I F h hs => left; rw [go_small I F h hs]; exact plain_head I F h
-  | big i0 I' F h hb => left; exact big_render_head i0 I' F h hb
-  | exp s h => left; rw [go_exp s h]; exact exp_head s h
-  | inf => right; left; exact go_special.1
-  | neg c r hc =>
-    right; right
-    refine ⟨c, r, hc, rfl, go_negative (c :: r) ?_⟩
-    intro e
-    have : c = 'i' := by simpa using congrArg List.head? e
-    rw [this] at hc; revert hc; decide
-
-/-- **C13 ⇒ the renderings of two bound texts coincide only if the texts do**, except in two situations the text
-    formulation cannot exclude and CPython's `repr` does (see `fmt_injective_of_repr`):
-    (a) two plain texts with more than six integer digits denoting the same number (`go_injective_big`) — `repr` prints
-        one shortest text per double;
-    (b) a plain text with more than six integer digits whose rendering IS an exponent-form text — `repr` uses the
-        exponent form only from `1e16` on, where it does not use the plain form. -/
-theorem render_injective (s t : Str) (hs : BoundRepr s) (ht : BoundRepr t)
-    (heq : floatToGoString s = floatToGoString t) :
-    s = t ∨
-    (∃ a b c, denote s = some a ∧ denote t = some b ∧ a.eqv c ∧ b.eqv c) ∨
-    (ExpRepr t ∧ floatToGoString s = t) ∨ (ExpRepr s ∧ floatToGoString t = s) := by
-  have shape_s := render_shape s hs
-  have shape_t := render_shape t ht
-  -- different kinds of first character: impossible
-  have hplus : (['+', 'I', 'n', 'f'] : Str).head? = some '+' := rfl
-  cases hs with
-  | inf =>
-    cases ht with
-    | inf => exact Or.inl rfl
-    | small I F h hs' =>
-      rw [go_special.1, go_small I F h hs'] at heq
-      exact absurd (heq ▸ hplus) (digitHead_ne_plus _ (plain_head I F h)).1
-    | big i0 I' F h hb =>
-      rw [go_special.1] at heq
-      exact absurd (heq ▸ hplus) (digitHead_ne_plus _ (big_render_head i0 I' F h hb)).1
-    | exp t h =>
-      rw [go_special.1, go_exp t h] at heq
-      exact absurd (heq ▸ hplus) (digitHead_ne_plus _ (exp_head t h)).1
-    | neg c r hc =>
-      have hn : floatToGoString ('-' :: c :: r) = '-' :: c :: r := go_negative (c :: r) (by
-        intro e; have : c = 'i' := by simpa using congrArg List.head? e
-        rw [this] at hc; revert hc; decide)
-      rw [go_special.1, hn] at heq
-      revert heq; simp
-  | neg c r hc =>
-    have hn : floatToGoString ('-' :: c :: r) = '-' :: c :: r := go_negative (c :: r) (by
-      intro e; have : c = 'i' := by simpa using congrArg List.head? e
-      rw [this] at hc; revert hc; decide)
-    have hminus : (floatToGoString ('-' :: c :: r)).head? = some '-' := by rw [hn]; rfl
-    rcases shape_t with h | h | ⟨c', r', _, e1, e2⟩
-    · rw [← heq] at h; exact absurd hminus (digitHead_ne_plus _ h).2
-    · rw [← heq] at h; rw [h] at hminus; revert hminus; simp
-    · rw [hn, e2] at heq; exact Or.inl heq
-  | small I F h hs' =>
-    rw [go_small I F h hs'] at heq
-    cases ht with
-    | small J G h2 ht' => rw [go_small J G h2 ht'] at heq; exact Or.inl heq
-    | exp t h2 => rw [go_exp t h2] at heq; exact Or.inl heq
-    | big j0 J' G h2 hb =>
-      have := (go_big_has_exponent j0 J' G h2 hb).1
-      rw [← heq] at this
-      exact absurd this (plain_no_e I F h)
-    | inf =>
-      rw [go_special.1] at heq
-      exact absurd (heq.symm ▸ hplus) (digitHead_ne_plus _ (plain_head I F h)).1
-    | neg c r hc =>
-      have hn : floatToGoString ('-' :: c :: r) = '-' :: c :: r := go_negative (c :: r) (by
-        intro e; have : c = 'i' := by simpa using congrArg List.head? e
-        rw [this] at hc; revert hc; decide)
-      rw [hn] at heq
-      have := (digitHead_ne_plus _ (plain_head I F h)).2
-      rw [heq] at this; exact absurd rfl this
-  | exp s h =>
-    rw [go_exp s h] at heq
-    cases ht with
-    | small J G h2 ht' => rw [go_small J G h2 ht'] at heq; exact Or.inl heq
-    | exp t h2 => rw [go_exp t h2] at heq; exact Or.inl heq
-    | big j0 J' G h2 hb => exact Or.inr (Or.inr (Or.inr ⟨h, heq.symm⟩))
-    | inf =>
-      rw [go_special.1] at heq
-      exact absurd (heq.symm ▸ hplus) (digitHead_ne_plus _ (exp_head s h)).1
-    | neg c r hc =>
-      have hn : floatToGoString ('-' :: c :: r) = '-' :: c :: r := go_negative (c :: r) (by
-        intro e; have : c = 'i' := by simpa using congrArg List.head? e
-        rw [this] at hc; revert hc; decide)
-      rw [hn] at heq
-      have := (digitHead_ne_plus _ (exp_head s h)).2
-      rw [heq] at this; exact absurd rfl this
-  | big i0 I' F h hb =>
-    cases ht with
-    | big j0 J' G h2 hb2 => exact Or.inr (Or.inl (go_injective_big i0 j0 I' J' F G h h2 hb hb2 heq))
-    | exp t h2 => rw [go_exp t h2] at heq; exact Or.inr (Or.inr (Or.inl ⟨h2, heq⟩))
-    | small J G h2 ht' =>
-      rw [go_small J G h2 ht'] at heq
-      have := (go_big_has_exponent i0 I' F h hb).1
-      rw [heq] at this
-      exact absurd this (plain_no_e J G h2)
-    | inf =>
-      rw [go_special.1] at heq
-      exact absurd (heq.symm ▸ hplus) (digitHead_ne_plus _ (big_render_head i0 I' F h hb)).1
-    | neg c r hc =>
-      have hn : floatToGoString ('-' :: c :: r) = '-' :: c :: r := go_negative (c :: r) (by
-        intro e; have : c = 'i' := by simpa using congrArg List.head? e
-        rw [this] at hc; revert hc; decide)
-      rw [hn] at heq
-      have := (digitHead_ne_plus _ (big_render_head i0 I' F h hb)).2
-      rw [heq] at this; exact absurd rfl this
+open PromVerif.Spec PromVerif.Model.Utils PromVerif.Props.C13 PromVerif.Lemmas.GoInjective PromVerif.Props.C13Injective
 
 /-- **injectivity of the bound formatter from C13.**  Let bounds be rendered as `floatToGoString (repr b)`.  If the
-    `repr` texts of the occurring bounds have the shapes of `BoundRepr`, `repr` is injective on them, and the two
-    CPython facts (a), (b) of `render_injective` hold for them, the formatter is injective on the occurring bounds —
+    `repr` texts of the occurring bounds belong to the five classes of `ReprText`, `repr` is injective on them, and the
+    two CPython facts of `C13Injective.ReprFacts` hold for them, the formatter is injective on the occurring bounds —
     which is hypothesis `hinj` of `bucketSeries_keys_nodup`.  What stays assumed, and why: injectivity and shortestness
-    of `repr` (a) and its exponent-form range (b) are facts about IEEE doubles and CPython, which have no Lean theory
-    here; the harness re-validates them on every bound it generates (C13's `REPR_RE` / range check). -/
+    of `repr` and its exponent-form range are facts about IEEE doubles and CPython, which have no Lean theory here; the
+    harness re-validates them on every bound it generates (C13's `REPR_RE` / range check). -/
 theorem fmt_injective_of_repr (repr : B → Str) (bounds : List B)
-    (hshape : ∀ b ∈ bounds, BoundRepr (repr b))
+    (hshape : ∀ b ∈ bounds, ReprText (repr b))
     (hrepr : ∀ b ∈ bounds, ∀ b' ∈ bounds, repr b = repr b' → b = b')
-    (hshortest : ∀ b ∈ bounds, ∀ b' ∈ bounds, (∃ a a' c, denote (repr b) = some a ∧ denote (repr b') = some a' ∧
-      a.eqv c ∧ a'.eqv c) → repr b = repr b')
-    (hrange : ∀ b ∈ bounds, ∀ b' ∈ bounds, ExpRepr (repr b') → floatToGoString (repr b) = repr b' → repr b = repr b') :
+    (hfacts : ReprFacts (fun s => ∃ b ∈ bounds, repr b = s)) :
     ∀ b ∈ bounds, ∀ b' ∈ bounds,
       floatToGoString (repr b) = floatToGoString (repr b') → b = b' := by
   intro b hb b' hb' heq
   apply hrepr b hb b' hb'
-  rcases render_injective _ _ (hshape b hb) (hshape b' hb') heq with h | h | ⟨h1, h2⟩ | ⟨h1, h2⟩
-  · exact h
-  · exact hshortest b hb b' hb' h
-  · exact hrange b hb b' hb' h1 h2
-  · exact (hrange b' hb' b hb h1 h2).symm
+  exact go_injective_texts _ hfacts _ _ (hshape b hb) (hshape b' hb') ⟨b, hb, rfl⟩ ⟨b', hb', rfl⟩ heq
 
 end C13
 
